@@ -9,14 +9,18 @@ Lemma BuiltValue_sind (PS : scalar -> Prop) (PK : bytes -> Prop) (P : value -> P
   (forall s d, PS s -> decor_built d -> P (VScalar s None d)) ->
   (forall es d, decor_built d -> Forall (BuiltValue PS PK) es -> Forall P es ->
                 P (VArray (map IValue es) REmpty false d None)) ->
+  (forall es d, decor_built d -> Forall (BuiltValue PS PK) es -> Forall P es ->
+                P (VArray (map (fun e => IValue (ml_elem e)) es) (RExplicit [x0a]) true d None)) ->
   (forall l d, decor_built d -> NoDup (map fst l) -> Forall PK (map fst l) ->
                Forall (BuiltValue PS PK) (map snd l) -> Forall P (map snd l) ->
                P (VInline (mk_inline_items l) REmpty false false d None)) ->
   forall v, BuiltValue PS PK v -> P v.
 Proof.
-  intros Hs Ha Hi. fix IH 2. intros v Hv. destruct Hv as [s d Hps Hd | es d Hd Hes | l d Hd Hnd Hk Hl].
+  intros Hs Ha Hm Hi. fix IH 2. intros v Hv. destruct Hv as [s d Hps Hd | es d Hd Hes | es d Hd Hes | l d Hd Hnd Hk Hl].
   - apply Hs; assumption.
   - apply Ha; [exact Hd | exact Hes |].
+    induction Hes as [|e es He Hes IHes]; constructor; [apply IH, He | exact IHes].
+  - apply Hm; [exact Hd | exact Hes |].
     induction Hes as [|e es He Hes IHes]; constructor; [apply IH, He | exact IHes].
   - apply Hi; [exact Hd | exact Hnd | exact Hk | exact Hl |].
     induction Hl as [|e es He Hes IHes]; constructor; [apply IH, He | exact IHes].
@@ -56,9 +60,10 @@ Section Txt.
   Fixpoint txt (v : value) : bytes :=
     match v with
     | VScalar s _ _ => scalar_txt s
-    | VArray vals _ _ _ _ =>
+    | VArray vals tr comma _ _ =>
       x5b :: arr_txt (flat_map (fun it => match it with IValue e => [(value_decor e, txt e)] | _ => [] end) vals)
-          ++ [x5d]
+          ++ (if comma && negb (match vals with [] => true | _ => false end) then [x2c] else [])
+          ++ raw_encode tr [] ++ [x5d]
     | VInline items _ _ _ _ _ =>
       x7b :: inl_txt (flat_map (fun kv => match kv with
                                           | (k, IValue e) => [(k, (value_decor e, txt e))]
@@ -69,14 +74,31 @@ Section Txt.
   Definition etxt (v : value) (dflt : bytes * bytes) : bytes := wrap (value_decor v) dflt (txt v).
 
   (* on the shapes constructed values have *)
-  Lemma txt_array es tr c d sp :
-    txt (VArray (map IValue es) tr c d sp) = x5b :: arr_txt (map (fun e => (value_decor e, txt e)) es) ++ [x5d].
+  Lemma txt_array es d sp :
+    txt (VArray (map IValue es) REmpty false d sp) = x5b :: arr_txt (map (fun e => (value_decor e, txt e)) es) ++ [x5d].
   Proof.
-    cbn [txt].
+    cbn [txt andb raw_encode app].
     assert (E : flat_map (fun it => match it with IValue e => [(value_decor e, txt e)] | _ => [] end) (map IValue es)
                 = map (fun e => (value_decor e, txt e)) es).
     { induction es as [|e es IH]; [reflexivity|]. cbn [map flat_map app]. f_equal. exact IH. }
     rewrite E. reflexivity.
+  Qed.
+  (* the multi-line layout: every element on its own line, a comma after each, the bracket on the last line *)
+  Lemma txt_ml_elem e : txt (ml_elem e) = txt e.
+  Proof. destruct e; reflexivity. Qed.
+  Definition ml_decor (e : value) : decor := mkDecor (Some (RExplicit ML_PREFIX)) (d_suffix (value_decor e)).
+  Lemma decor_ml_elem e : value_decor (ml_elem e) = ml_decor e.
+  Proof. destruct e; reflexivity. Qed.
+  Lemma txt_array_ml es d sp :
+    txt (VArray (map (fun e => IValue (ml_elem e)) es) (RExplicit [x0a]) true d sp)
+    = x5b :: arr_txt (map (fun e => (ml_decor e, txt e)) es) ++ (match es with [] => [] | _ => [x2c] end) ++ [x0a; x5d].
+  Proof.
+    cbn [txt].
+    assert (E : flat_map (fun it => match it with IValue e => [(value_decor e, txt e)] | _ => [] end)
+                         (map (fun e => IValue (ml_elem e)) es)
+                = map (fun e => (ml_decor e, txt e)) es).
+    { induction es as [|e es IH]; [reflexivity|]. cbn [map flat_map app]. rewrite decor_ml_elem, txt_ml_elem. f_equal. exact IH. }
+    rewrite E. destruct es; reflexivity.
   Qed.
   Lemma txt_inline l pre im dt d sp :
     txt (VInline (mk_inline_items l) pre im dt d sp)
@@ -112,6 +134,17 @@ Section Txt.
     = VInline (mk_inline_items (map (fun kv => (fst kv, render_value ftext (snd kv))) l)) pre im dt d sp.
   Proof. rewrite render_inline. unfold mk_inline_items. rewrite !map_map. reflexivity. Qed.
 
+  Lemma render_ml_elem e : render_value ftext (ml_elem e) = ml_elem (render_value ftext e).
+  Proof. destruct e as [s r d| |]; [destruct s, r|..]; reflexivity. Qed.
+  Lemma render_built_array_ml es tr c d sp :
+    render_value ftext (VArray (map (fun e => IValue (ml_elem e)) es) tr c d sp)
+    = VArray (map (fun e => IValue (ml_elem e)) (map (render_value ftext) es)) tr c d sp.
+  Proof.
+    rewrite render_array, !map_map. f_equal. apply map_ext. intro e. rewrite render_item_value, render_ml_elem. reflexivity.
+  Qed.
+  Lemma value_size_ml_elem e : value_size (ml_elem e) = value_size e.
+  Proof. destruct e; reflexivity. Qed.
+
   Lemma value_size_array vals tr c d sp :
     value_size (VArray vals tr c d sp) = S (fold_right (fun it acc => item_size it + acc) 0 vals).
   Proof. reflexivity. Qed.
@@ -129,6 +162,9 @@ Section Txt.
     - intros es d _ _ IH. rewrite render_built_array, !value_size_array. f_equal.
       induction IH as [|e es' He _ IHes]; [reflexivity|].
       cbn [map fold_right]. rewrite !item_size_value, He, IHes. reflexivity.
+    - intros es d _ _ IH. rewrite render_built_array_ml, !value_size_array. f_equal.
+      induction IH as [|e es' He _ IHes]; [reflexivity|].
+      cbn [map fold_right]. rewrite !item_size_value, !value_size_ml_elem, He, IHes. reflexivity.
     - intros l d _ _ _ _ IH. rewrite render_built_inline, !value_size_inline. f_equal. unfold mk_inline_items.
       induction l as [|[k e] l IHl]; [reflexivity|].
       cbn [map fst snd] in IH. inversion IH as [|? ? He Hl']; subst.
@@ -181,7 +217,7 @@ Section Txt.
   (* the (key path, value) lines of a constructed inline table: one per entry *)
   Lemma built_not_dotted : forall v, BuiltValue v ->
     match render_value ftext v with VInline _ _ _ true _ _ => False | _ => True end.
-  Proof. intros v H. destruct H as [s d Hps Hd | es d Hd Hes | l d Hd Hnd Hk Hl]; [destruct s|..]; exact I. Qed.
+  Proof. intros v H. destruct H as [s d Hps Hd | es d Hd Hes | es d Hd Hes | l d Hd Hnd Hk Hl]; [destruct s|..]; exact I. Qed.
 
   Lemma inline_values_built fuel l :
     Forall BuiltValue (map snd l) ->
@@ -248,6 +284,78 @@ Section Txt.
     rewrite IH by (intros e' dflt Hin; apply Htl; right; exact Hin). reflexivity.
   Qed.
 
+  (* the printed form of a value is its token between its decor; the token does not depend on the decor *)
+  Lemma encode_value_decor f v dflt :
+    exists core, forall d', 
+      encode_value (S f) (match v with
+                          | VScalar s r _ => VScalar s r d'
+                          | VArray vals tr c _ sp => VArray vals tr c d' sp
+                          | VInline items pre im dt _ sp => VInline items pre im dt d' sp
+                          end) dflt
+      = decor_prefix d' (fst dflt) ++ core ++ decor_suffix d' (snd dflt).
+  Proof.
+    destruct v as [s r d|vals tr c d sp|items pre im dt d sp].
+    - eexists. intro d'. rewrite encode_value_scalar. reflexivity.
+    - eexists. intro d'. rewrite encode_value_array. rewrite !app_assoc. rewrite <- !app_assoc. 
+      instantiate (1 := [x5b] ++ enc_elems (encode_value f) true vals
+                         ++ (if c && negb (match vals with [] => true | _ => false end) then [x2c] else [])
+                         ++ raw_encode tr [] ++ [x5d]).
+      rewrite <- !app_assoc. reflexivity.
+    - eexists. intro d'. rewrite encode_value_inline. cbv zeta.
+      instantiate (1 := [x7b] ++ raw_encode pre []
+                         ++ enc_kvs (encode_value f)
+                              (length (inline_values (S (value_size (VInline items pre im dt d sp))) [] items)) 0
+                              (inline_values (S (value_size (VInline items pre im dt d sp))) [] items)
+                         ++ [x7d]).
+      rewrite <- !app_assoc. reflexivity.
+  Qed.
+
+  Lemma set_decor_self v :
+    v = match v with
+        | VScalar s r d => VScalar s r d
+        | VArray vals tr c d sp => VArray vals tr c d sp
+        | VInline items pre im dt d sp => VInline items pre im dt d sp
+        end.
+  Proof. destruct v; reflexivity. Qed.
+
+  (* an element of a multi-line array is printed as the element itself, behind the line break *)
+  Lemma encode_ml_elem f v t dflt :
+    (forall dflt', encode_value (S f) v dflt' = wrap (value_decor v) dflt' t) ->
+    encode_value (S f) (ml_elem v) dflt = wrap (ml_decor v) dflt t.
+  Proof.
+    intro H. destruct (encode_value_decor f v dflt) as (core & Hc).
+    assert (Ecore : core = t).
+    { pose proof (Hc (value_decor v)) as H1.
+      assert (Ev : match v with
+                   | VScalar s r _ => VScalar s r (value_decor v)
+                   | VArray vals tr c _ sp => VArray vals tr c (value_decor v) sp
+                   | VInline items pre im dt _ sp => VInline items pre im dt (value_decor v) sp
+                   end = v) by (destruct v; reflexivity).
+      rewrite Ev, (H dflt) in H1. unfold wrap in H1.
+      apply app_inv_head in H1. apply app_inv_tail in H1. symmetry. exact H1. }
+    subst core.
+    assert (Em : ml_elem v = match v with
+                             | VScalar s r _ => VScalar s r (ml_decor v)
+                             | VArray vals tr c _ sp => VArray vals tr c (ml_decor v) sp
+                             | VInline items pre im dt _ sp => VInline items pre im dt (ml_decor v) sp
+                             end) by (destruct v; reflexivity).
+    rewrite Em, (Hc (ml_decor v)). reflexivity.
+  Qed.
+
+  Lemma enc_elems_txt_ml (enc : value -> bytes * bytes -> bytes) (es : list value) :
+    (forall e dflt, In e es -> enc (ml_elem (render_value ftext e)) dflt = wrap (ml_decor e) dflt (txt e)) ->
+    enc_elems enc true (map (fun e => IValue (ml_elem e)) (map (render_value ftext) es))
+    = arr_txt (map (fun e => (ml_decor e, txt e)) es).
+  Proof.
+    intro Henc. destruct es as [|e es]; [reflexivity|].
+    cbn [map enc_elems arr_txt app]. rewrite (Henc e) by (left; reflexivity). f_equal.
+    assert (Htl : forall e' dflt, In e' es -> enc (ml_elem (render_value ftext e')) dflt = wrap (ml_decor e') dflt (txt e'))
+      by (intros e' dflt Hin; apply Henc; right; exact Hin).
+    clear Henc. induction es as [|e2 es IH]; [reflexivity|].
+    cbn [map enc_elems concat app fst snd]. rewrite (Htl e2) by (left; reflexivity).
+    rewrite IH by (intros e' dflt Hin; apply Htl; right; exact Hin). reflexivity.
+  Qed.
+
   Lemma decor_built_default_nil d : decor_built d -> True.
   Proof. trivial. Qed.
 
@@ -271,6 +379,21 @@ Section Txt.
           - cbn [map fold_right]. rewrite item_size_value. lia.
           - cbn [map fold_right]. specialize (IHl Hin'). lia. }
         specialize (Hle es Hin). lia.
+    - intros es d _ _ IH fuel dflt Hf. destruct fuel as [|f]; [lia|].
+      rewrite render_built_array_ml, encode_value_array.
+      rewrite enc_elems_txt_ml.
+      + unfold etxt, wrap. rewrite txt_array_ml. cbn [value_decor andb raw_encode strip_cr filter app].
+        destruct es as [|e0 es']; cbn [map negb app]; rewrite <- ?app_assoc; reflexivity.
+      + intros e dflt' Hin. rewrite Forall_forall in IH.
+        rewrite value_size_array in Hf.
+        assert (Hle : forall l, In e l -> value_size e < fold_right (fun it acc => item_size it + acc) 0 (map (fun e => IValue (ml_elem e)) l)).
+        { induction l as [|x l IHl]; [contradiction|]. intros [->|Hin'].
+          - cbn [map fold_right]. rewrite item_size_value, value_size_ml_elem. lia.
+          - cbn [map fold_right]. specialize (IHl Hin'). lia. }
+        specialize (Hle es Hin).
+        destruct f as [|f']; [lia|].
+        assert (Hd : ml_decor e = ml_decor (render_value ftext e)) by (unfold ml_decor; rewrite render_decor; reflexivity).
+        rewrite Hd. apply encode_ml_elem. intro dflt''. rewrite render_decor. apply (IH e Hin). lia.
     - intros l d _ _ _ Hl IH fuel dflt Hf. destruct fuel as [|f]; [lia|].
       rewrite render_built_inline, encode_value_inline. cbv zeta.
       rewrite (inline_values_built _ l Hl).
